@@ -89,6 +89,7 @@ class Engine:
         self.model = None      # a model of the current path condition, if known
         self.hints = []
         self.fn_cache = {}
+        self.int_mode = False
         self.power_hook = None
         self.log10_hook = None
         self.log_tol = Fraction(1, 10 ** 12)
@@ -419,12 +420,27 @@ class Engine:
         return obs
 
     def uf_table(self, model):
-        """concrete instances of the uninterpreted functions of this run, taken from the model"""
+        """concrete instances of the uninterpreted functions of this run, taken from the model.  Arguments
+        computed in float arithmetic are matched to the model's function graph with a relative tolerance
+        (the output of one function is often the input of the next)."""
         tables = {}
         for name, f in self.ufs.items():
-            def make(f=f):
+            graph = []
+            try:
+                fi = model[f]
+                if fi is not None:
+                    for ent in fi.as_list()[:-1]:
+                        graph.append(([float(frac_of(a)) for a in ent[:-1]], float(frac_of(ent[-1]))))
+            except Exception:      # noqa: BLE001 - fall back to plain evaluation
+                graph = []
+
+            def make(f=f, graph=graph):
                 def g(*args):
-                    zargs = [z3.RealVal(str(sym.float_fraction(float(a)))) for a in args]
+                    fa = [float(a) for a in args]
+                    for ga, gv in graph:
+                        if all(abs(x - y) <= 1e-9 * max(abs(x), abs(y), 1e-300) or x == y for x, y in zip(fa, ga)):
+                            return gv
+                    zargs = [z3.RealVal(str(sym.float_fraction(a))) for a in fa]
                     return float(frac_of(model.eval(f(*zargs), model_completion=True)))
                 return g
             tables[name] = make()
